@@ -111,8 +111,18 @@ def run(prop, repo="/repo"):
         jobs.append(("benign", b))
     report["benign_not_relevant"] = skipped
     fired = applicable = 0
-    with ThreadPoolExecutor(max_workers=6) as ex:
-        results = list(ex.map(lambda j: (j, _mutant(prop, repo, j[1])), jobs))
+    # the self-test is bounded in time: mutants and seeds first, then the benign variants; what does not start within the
+    # budget is recorded as not run (it says nothing about the tree under test either way)
+    budget = float(os.environ.get("PV_THOROUGH_BUDGET_S", "1200"))
+    report["budget_s"] = budget
+
+    def bounded(j):
+        if time.time() - t0 > budget:
+            return (j, ("skipped (time budget)", None))
+        return (j, _mutant(prop, repo, j[1]))
+    with ThreadPoolExecutor(max_workers=int(os.environ.get("PV_THOROUGH_WORKERS", "8"))) as ex:
+        results = list(ex.map(bounded, jobs))
+    report["not_run_time_budget"] = sum(1 for _, (rc, _f) in results if rc == "skipped (time budget)")
     for (kind, path), (rc, first) in results:
         name = os.path.relpath(path, HERE)
         if isinstance(rc, str):
